@@ -26,16 +26,17 @@ def c15(res, st, std_coq):
         gl = vlib._run_out([vlib.HARNESS, "quote-exh", mode] + args)
         ml = vlib._run_out([vlib.DRIVER, "quote-exh", tbl, mode] + args)
         fails = [l for l in gl if l.startswith("FAIL ")]
-        gl = [l for l in gl if not l.startswith("FAIL ")]
+        nontriv = sum(int(l.split()[1]) for l in gl if l.startswith("NONTRIV "))
+        gl = [l for l in gl if not l.startswith("FAIL ") and not l.startswith("NONTRIV ")]
         mism = []
         if gl != ml:
             for (i, a, b) in vlib.first_diffs(gl, ml, 2):
                 blk = str(int(a.split()[0]) - 1)
-                gv = [l for l in vlib._run_out([vlib.HARNESS, "quote-exh", mode] + args + [blk]) if not l.startswith("FAIL ")]
+                gv = [l for l in vlib._run_out([vlib.HARNESS, "quote-exh", mode] + args + [blk]) if not l.startswith("FAIL ") and not l.startswith("NONTRIV ")]
                 mv = vlib._run_out([vlib.DRIVER, "quote-exh", tbl, mode] + args + [blk])
                 for (_, x, y) in vlib.first_diffs(gv, mv, 3):
                     mism.append((x.split(" => ")[0], x, y))
-        return fails, mism, len(gl)
+        return fails, mism, nontriv
 
     with ThreadPoolExecutor(max_workers=16) as ex:
         rs = list(ex.map(one, shards))
@@ -72,11 +73,11 @@ def c15(res, st, std_coq):
     rest = [t for t in mism if t[0] not in failed]
     res.obligation("correspondence quote model: token.QuoteSQL{String,Bytes,Ident} == extracted Coq model on %d values" % (nexh + len(ins)),
                    not rest, "\n".join("%s\n  go:    %s\n  model: %s" % t for t in rest[:5]))
-    res.add_cases(nexh + len(ins), nexh // 2 + len(set(ins)), [g[0][:200], g[len(g) // 2][:200], g[-1][:200]])
+    res.add_cases(nexh + len(ins), sum(n for _, _, n in rs) + len(set(ins)), [g[0][:200], g[len(g) // 2][:200], g[-1][:200]])
     res.cov["rule"] = ("every 0-, 1- and 2-byte string over all 256 byte values, 'a'+c+\"'\" for every Unicode code point c, random longer strings "
                        "(quotes, backslashes, control characters, invalid UTF-8, keywords); on each: C15 evaluated on the real QuoteSQL* + Lexer "
                        "(oracle) and the three outputs compared with the extracted Coq model (is_print instantiated with a table dumped from "
-                       "Go's unicode.IsPrint in this run); non-trivial = needs quoting or escaping (estimated as half of the exhaustive part) "
+                       "Go's unicode.IsPrint in this run); non-trivial = needs an escape or the alternative quote (counted by the harness on the exhaustive part) "
                        "/ distinct random values")
     res.assumptions += ["unicode.IsPrint is universally quantified in the theorems; only the correspondence uses Go's table",
                         "fmt %02x/%04x/%08x modelled by hex_fixed (compared on every case)"]
